@@ -5,7 +5,7 @@ from common import *
 import hvgen
 import hvhist
 
-PROP_MODULES = ["HvsrVerif.Props.C11", "HvsrVerif.Props.C11Laws"]
+PROP_MODULES = ["HvsrVerif.Props.C11", "HvsrVerif.Props.C11Laws", "HvsrVerif.Props.C11Order"]
 BRIDGE_MODULES = []
 
 
